@@ -1,0 +1,17 @@
+//go:build verif
+
+package cmd
+
+// Contracts for the verification machinery in /verif (comment-only file; compiled
+// only with -tags verif and adds no code).
+
+//@ # C05: `--define` prints an unordered set of records ("identical up to line order"); these two
+//@ # loops may therefore print in map order, but only as long as nothing else can reach them.
+//@ func ti/cmd.printMatchingSignatures
+//@   unordered 0 ti/cmd.PrintAllDefinitionsForLsp
+
+//@ func ti/cmd.printInheritanceMap
+//@   unordered 0 ti/cmd.PrintAllDefinitionsForLsp
+
+//@ func ti/cmd.PrintTargetClassExtends
+//@   witness order:loop0.early-exit.unique#0 "class P\nend\nclass Q\nend\nmodule M\n  class B < P\n  end\nend\nclass B < Q\nend\n" args "--extends --class=B" expect-varies "12"
